@@ -240,16 +240,22 @@ pub fn init() {
         }
         st.inited = true;
     }
-    reset_locked(st, 0, Policy::default());
+    reset_locked(st, 0, Policy::default(), true);
     install_crash_handler();
 }
 
-fn reset_locked(st: &mut State, seed: u64, policy: Policy) {
+fn reset_locked(st: &mut State, seed: u64, policy: Policy, full: bool) {
     st.rng = Rng::new(seed ^ 0xA11C_A7E5);
     st.policy = policy;
     st.next_tag = 0;
     st.next_place = 0;
     st.next_align = 0;
+    // Blocks that are still live belong to something that outlives an execution (a
+    // `static` cache inside the library, a value leaked by an unwinding task): they stay
+    // where they are. Only when far too many have piled up is everything forgotten.
+    if !full && st.stats.live < 3000 {
+        return;
+    }
     st.stats.live = 0;
     for c in st.classes.iter_mut() {
         unsafe {
@@ -262,13 +268,12 @@ fn reset_locked(st: &mut State, seed: u64, policy: Policy) {
     }
 }
 
-/// Start of an execution: every slot becomes free again (blocks that leaked out of an
-/// earlier execution are forgotten; a late `free` of one is ignored and counted), the
-/// placement PRNG is re-seeded. Makes every execution independent of the process history.
+/// Start of an execution: the placement PRNG is re-seeded. Every block is filled on
+/// allocation, so what an execution sees does not depend on the process history.
 pub fn reset(seed: u64, policy: Policy) {
     let (_g, st) = lock();
     if st.inited {
-        reset_locked(st, seed, policy);
+        reset_locked(st, seed, policy, false);
     }
 }
 
@@ -278,7 +283,9 @@ pub fn stats() -> Stats {
 }
 pub fn clear_stats() {
     let (_g, st) = lock();
+    let live = st.stats.live;
     st.stats = Stats::default();
+    st.stats.live = live;
 }
 
 /// Label + placement + alignment of the *next* arena allocation (used by the harness for
